@@ -6,8 +6,8 @@ import F1Verif.Generated.Facts
 import F1Verif.Expected
 namespace F1.Props.FactsC12
 
-theorem fact_api_withRegularDistribution : F1.Generated.skel_api_withRegularDistribution = F1.Expected.skel_api_withRegularDistribution := by rfl
-theorem fact_api_withRandomDistribution : F1.Generated.skel_api_withRandomDistribution = F1.Expected.skel_api_withRandomDistribution := by rfl
+-- (api_withRegularDistribution, api_withRandomDistribution: re-proved semantically on the regenerated MiniGo programs, see Props/Refine*.lean)
+
 theorem fact_api_NewDistribution : F1.Generated.skel_api_NewDistribution = F1.Expected.skel_api_NewDistribution := by rfl
 
 end F1.Props.FactsC12
